@@ -21,6 +21,10 @@ pub struct Schedule {
     pub cap: usize,
     pub initial: Vec<u8>,
     pub chunks: Vec<Vec<u8>>, // appends actually performed, in order (the hook ends the iteration afterwards)
+    /// eager[i] = number of pending chunks the writer appends just BEFORE the reader's i-th call of `next()` (i.e. while
+    /// the consumer is still working on the lines delivered so far); chunks not appended eagerly are appended one per
+    /// retry, as before. Empty = the writer appends at the retry point only.
+    pub eager: Vec<usize>,
 }
 
 pub struct Observed {
@@ -32,7 +36,7 @@ pub struct Observed {
 pub fn run_real(s: &Schedule) -> Result<Observed, String> {
     let path = tmp_file(&s.initial);
     let res = catch(|| -> Result<Observed, String> {
-        let mut writer = OpenOptions::new().append(true).open(&path).map_err(|e| format!("open: {}", e))?;
+        let writer = OpenOptions::new().append(true).open(&path).map_err(|e| format!("open: {}", e))?;
         let file = File::open(&path).map_err(|e| format!("open: {}", e))?;
         let mut reader = BufReader::with_capacity(s.cap, file);
         // as FollowFileExecutor::new
@@ -44,18 +48,42 @@ pub fn run_real(s: &Schedule) -> Result<Observed, String> {
         let calls = Rc::new(RefCell::new(0usize));
         let calls2 = calls.clone();
         let chunks = s.chunks.clone();
+        let next_chunk = Rc::new(RefCell::new(0usize));
+        let next_chunk2 = next_chunk.clone();
+        let writer = Rc::new(RefCell::new(writer));
+        let writer2 = writer.clone();
         verif_hooks::set_follow_retry_hook(Some(Box::new(move || {
             let n = *calls2.borrow();
             *calls2.borrow_mut() = n + 1;
-            if n < chunks.len() {
-                writer.write_all(&chunks[n]).unwrap();
-                writer.flush().unwrap();
+            let i = *next_chunk2.borrow();
+            if i < chunks.len() {
+                writer2.borrow_mut().write_all(&chunks[i]).unwrap();
+                writer2.borrow_mut().flush().unwrap();
+                *next_chunk2.borrow_mut() = i + 1;
                 true
             } else {
                 false
             }
         })));
-        let delivered: Vec<Vec<u8>> = FollowFileIterator::new(reader).map(|l| l.into_bytes()).collect();
+        let mut delivered: Vec<Vec<u8>> = Vec::new();
+        let mut it = FollowFileIterator::new(reader);
+        let mut call = 0usize;
+        loop {
+            // the writer may append while the consumer is busy between two polls
+            for _ in 0..s.eager.get(call).copied().unwrap_or(0) {
+                let i = *next_chunk.borrow();
+                if i < s.chunks.len() {
+                    writer.borrow_mut().write_all(&s.chunks[i]).unwrap();
+                    writer.borrow_mut().flush().unwrap();
+                    *next_chunk.borrow_mut() = i + 1;
+                }
+            }
+            call += 1;
+            match it.next() {
+                Some(l) => delivered.push(l.into_bytes()),
+                None => break,
+            }
+        }
         verif_hooks::set_follow_retry_hook(None);
         let hook_calls = *calls.borrow();
         Ok(Observed { delivered, hook_calls })
@@ -148,7 +176,7 @@ fn cut(content: &[u8], pts: &[usize]) -> Vec<Vec<u8>> {
 }
 
 fn case_line(s: &Schedule) -> String {
-    format!("follow {} {} {} ({})", if s.head { "head" } else { "tail" }, s.cap, hex(&s.initial),
+    format!("{} {} {} {} ({})", if s.eager.is_empty() { "follow" } else { "followd" }, if s.head { "head" } else { "tail" }, s.cap, hex(&s.initial),
             s.chunks.iter().map(|c| hex(c)).collect::<Vec<_>>().join(" "))
 }
 
@@ -182,8 +210,11 @@ pub fn check_schedule(run: &mut Run, s: &Schedule, mode: &str) {
             run.fail(line, "follow-panic", e);
         }
         Ok(obs) => {
-            let answer = format!("delivered {}{} retries {}", obs.delivered.len(),
-                                 obs.delivered.iter().map(|l| format!(" {}", hex(l))).collect::<String>(), obs.hook_calls);
+            let answer = if s.eager.is_empty() {
+                format!("delivered {}{} retries {}", obs.delivered.len(), obs.delivered.iter().map(|l| format!(" {}", hex(l))).collect::<String>(), obs.hook_calls)
+            } else {
+                format!("delivered {}{}", obs.delivered.len(), obs.delivered.iter().map(|l| format!(" {}", hex(l))).collect::<String>())
+            };
             run.case(line.clone(), answer, tag);
             run.oracle_checks += 1;
             if obs.delivered != expected {
@@ -220,7 +251,7 @@ fn make_schedule(rng: &mut Rng, head: bool, cap: usize, initial: Vec<u8>, append
         let keep = 1 + rng.below(chunks.len() - 1);
         chunks.truncate(keep);
     }
-    Schedule { head, cap, initial, chunks }
+    Schedule { head, cap, initial, chunks, eager: Vec::new() }
 }
 
 pub fn run(p: &Params) -> Run {
@@ -281,8 +312,42 @@ pub fn run(p: &Params) -> Run {
         if appended.len() > cap + 1 && rng.chance(1, 2) { pts.push(cap); pts.push(cap + 1); }
         pts.sort(); pts.dedup();
         let chunks = cut(&appended, &pts);
-        let s = Schedule { head, cap, initial, chunks };
+        let s = Schedule { head, cap, initial, chunks, eager: Vec::new() };
         check_schedule(&mut run, &s, "long");
+    }
+
+    // the writer appends BETWEEN two polls as well (while the consumer works on the lines delivered so far), not only
+    // when the reader waits at end of file
+    let n_eager = p.n(3_000, 40_000);
+    for i in 0..n_eager {
+        let head = rng.chance(1, 2);
+        let cap = *rng.pick(&CAPS);
+        let initial = if rng.chance(1, 2) { Vec::new() } else { gen_content(&mut rng, 6) };
+        let appended = gen_content(&mut rng, if i % 5 == 0 { 40 } else { 16 });
+        let mode = *rng.pick(&modes);
+        let mut s = make_schedule(&mut rng, head, cap, initial, &appended, mode);
+        let calls = 2 + rng.below(12);
+        s.eager = (0..calls).map(|_| if rng.chance(1, 2) { rng.below(3) } else { 0 }).collect();
+        if s.eager.iter().all(|k| *k == 0) { s.eager[0] = 1; }
+        check_schedule(&mut run, &s, "eager");
+    }
+    // bursts: one append holds many complete lines (more than the reader's own buffering, 64 KiB .. 300 KiB) plus an
+    // unterminated tail; the completion (and further lines) arrive while the consumer is still working through the burst
+    let n_burst = p.n(6, 60);
+    for i in 0..n_burst {
+        let head = rng.chance(1, 2);
+        let cap = *rng.pick(&[64usize, 8192, 8192, 8192]);
+        let nlines = 2_000 + rng.below(if i % 2 == 0 { 12_000 } else { 4_000 });
+        let mut burst: Vec<u8> = Vec::new();
+        for k in 0..nlines { burst.extend_from_slice(format!("line {} {}\n", k, "xy\u{e9}".repeat(rng.below(6))).as_bytes()); }
+        burst.extend_from_slice(b"unterminated ta");
+        let completion = "il \u{20ac}\nnext line\nlast\n".as_bytes().to_vec();
+        let extra = gen_content(&mut rng, 10);
+        let initial = if rng.chance(1, 2) { Vec::new() } else { b"old\n".to_vec() };
+        let mut eager = vec![0usize; 1 + rng.below(nlines)];
+        eager.push(1 + rng.below(2));
+        let s = Schedule { head, cap, initial, chunks: vec![burst, completion, extra], eager };
+        check_schedule(&mut run, &s, "burst");
     }
 
     // exhaustive small scope (thorough): all contents <= 5 symbols over {a, \n, \r, é} x all cut sets x caps <= 3
@@ -300,7 +365,7 @@ pub fn run(p: &Params) -> Run {
                     let pts: Vec<usize> = (1..nb).filter(|i| cs >> (i - 1) & 1 == 1).collect();
                     let chunks = cut(&content, &pts);
                     for &cap in &[1usize, 2, 3] {
-                        let s = Schedule { head: true, cap, initial: Vec::new(), chunks: chunks.clone() };
+                        let s = Schedule { head: true, cap, initial: Vec::new(), chunks: chunks.clone(), eager: Vec::new() };
                         check_schedule(&mut run, &s, "exhaustive");
                     }
                 }
